@@ -95,6 +95,80 @@ def chk_toast_base_records_depth(depth: int, planet: bool, filtered: bool) -> bo
     return b.imgset.tile_levels == depth and calls == [("filtered" if filtered else "all", depth)]
 
 
+def chk_toast_tiler_levels(l0: int, l1: int, l2: int, n_images: int, explicit_start: int) -> bool:
+    """
+    The REAL FitsTiler._tile_toast over a collection of up to three images whose pixel scales suggest the TOAST levels
+    l0, l1, l2 (any order), with or without an explicit start level: every input is sampled into the SAME layer, and the
+    tile levels recorded in the builder (what the WTML says) are the depth of the deepest layer that received tiles.
+
+    pre: 1 <= l0 <= 12 and 1 <= l1 <= 12 and 1 <= l2 <= 12
+    pre: 1 <= n_images <= 3
+    pre: 0 <= explicit_start <= 12
+    post: _
+    """
+    import toasty.samplers as tsm
+    import toasty.toast as tt
+    levels = [l0, l1, l2][:n_images]
+
+    class Wcs:
+        _naxis = (7, 9)
+
+        def __init__(self, k):
+            self.k = k
+
+        def __getitem__(self, i):
+            return ("WCS", self.k)[i]
+
+    class Img:
+        def __init__(self, k):
+            self.wcs = Wcs(k)
+
+        def has_wcs(self):
+            return True
+
+        def asarray(self):
+            return "DATA"
+
+    class Coll:
+        def images(self):
+            return iter([Img(k) for k in range(len(levels))])
+
+        def export_simple(self):
+            return [("/data/in%d.fits" % k, 0) for k in range(len(levels))]
+
+    class FakeWcsSampler:
+        def __init__(self, data=None, wcs=None):
+            self.k = wcs[1]
+
+        def filter(self):
+            return lambda tile: True
+
+        def sampler(self):
+            return ("SAMPLER", self.k)
+
+    sampled = []
+    cascaded = []
+    saved = (tt.sample_layer, tt.sample_layer_filtered, tsm.WcsSampler, tp.guess_base_layer_level, tb.Builder.cascade, tb.Builder.apply_wcs_info)
+    tb.Builder.apply_wcs_info = lambda self, wcs=None, width=None, height=None, **k: None
+    tt.sample_layer = lambda pio, sampler, depth, **k: sampled.append(depth)
+    tt.sample_layer_filtered = lambda pio=None, tile_filter=None, sampler=None, depth=None, **k: sampled.append(depth)
+    tsm.WcsSampler = FakeWcsSampler
+    tp.guess_base_layer_level = lambda wcs=None, **k: levels[wcs[1]]
+    tb.Builder.cascade = lambda self, **k: cascaded.append(self.imgset.tile_levels)
+    try:
+        t = FitsTiler(Coll(), out_dir="/base/out", tiling_method=TilingMethod.TOAST)
+        t.builder = tb.Builder(PyramidIO("/base/out", default_format="fits"))
+        if explicit_start > 0:
+            t._tile_toast(False, 1, start=explicit_start)
+        else:
+            t._tile_toast(False, 1)
+    finally:
+        tt.sample_layer, tt.sample_layer_filtered, tsm.WcsSampler, tp.guess_base_layer_level, tb.Builder.cascade, tb.Builder.apply_wcs_info = saved
+    want = explicit_start if explicit_start > 0 else max(levels)
+    return (len(sampled) == len(levels) and all(d == want for d in sampled) and t.builder.imgset.tile_levels == max(sampled)
+            and cascaded == [want])
+
+
 # ---------------------------------------------------------------- histories of FitsTiler.tile() on one output directory
 
 def _make_tiler(method, out_dir, produced):
